@@ -11,3 +11,4 @@ pub mod c12;
 pub mod c11;
 pub mod c09;
 pub mod c10;
+pub mod c03pdu;
